@@ -29,7 +29,7 @@ func runC07(p *Program, r *Report) {
 	tsp := p.SSAPkg("template")
 	pv := NewProv(p)
 	pv.NoInline = true
-	ccp := p.Func("template", "(*Template).checkCanParse")
+	ccp := findCheckCanParse(p)
 	if ccp == nil {
 		r.Undec("C07.R1", "template.(*Template).checkCanParse", "", "anchor not found")
 		return
